@@ -21,7 +21,7 @@ SPEC = Spec(
          "read-only; ~8% of the cases with the feature gate service.profilesSupport switched off; model validateAll) and the very same value is then built; processor ids include k10/k11 and lists of up to 4 in random order so the "
          "configured order differs from the lexical one; ~6% of the cases fail validation (no receiver / no exporter / duplicated "
          "processor) and are not built; 5% have one receiver/exporter factory fail inside buildComponents (Build must return the error; model "
-         "buildWith); every second case is built TWICE from the very same pipelines.Config value (all observations on the second build) and the value is dumped before/after every build (Build must not modify its input); 4% of the random cases replace one receiver/exporter/processor entry by an id that is referenced but unavailable (not configured / no factory: "
+         "buildWith); 12% get a wide connector fan-out (one more connector into 3-4 new pipelines of one random signal, so every signal's router is built over 3-4 next pipelines); the pipeline ids of every connector instance's router are observed at creation (obs routers, diffed) and its error branches probed (Consumer() / Consumer(ids, unknown) must fail); every second case is built TWICE from the very same pipelines.Config value (all observations on the second build) and the value is dumped before/after every build (Build must not modify its input); 4% of the random cases replace one receiver/exporter/processor entry by an id that is referenced but unavailable (not configured / no factory: "
          "the error branches of builders.*Builder.Create*, class create); every second connector support matrix without a profiles pair is served by a plain connector.NewFactory "
          "(not an xconnector.Factory: the guards of connectorStability); the text of every connector error is parsed and judged by the Lean monitor connMsgOk; in 20% of the built cases one to three exporters/processors return an error from Consume (after recording/forwarding) and "
          "the route multisets must be unchanged; 30% of the plain exporters declare MutatesData (besides all processors); the CONTEXT of every injected payload is a "
